@@ -34,6 +34,16 @@
     * `earlyReplace_completes`      – an undisturbed save ends in the same directory as the current
                                       code (why normal runs, and crashes that unwind through the `with`
                                       block, do not show the difference).
+  Exceptions (unwinding) instead of kills — `unwindStates ops cleanup`:
+    * `current_exception_safe`        – the current code has no handler: exception states = kill states;
+    * `finallyReplace_counterexample` – `os.replace` moved into a `finally:` clause: an exception in the
+                                        middle of the write renames the truncated `.new` over the last
+                                        good snapshot; `finallyReplace_same_ops`: its kill states and its
+                                        undisturbed path are those of the current code.
+  Found on the unchanged tree (known finding `autosave-suffix-new-in-place`):
+    * `aliased_counterexample`        – a back-end resumed from a file whose suffix is `.new` has
+                                        `with_suffix(".new") == autosave_file`: autosaves are written in
+                                        place and a crash inside the write truncates the advertised file.
   The three-step variant that was in the tree before commit 3262c67 (`saveOld`):
     * `threeStep_counterexample`    – kernel-checked witness: after `rename(base, .bak)` and before
                                       `rename(.new, base)` nothing exists under `base`;
@@ -123,6 +133,42 @@ theorem earlyReplace_not_crash_safe : ¬ CrashSafe (σ := Nat) (fun _ w => saveE
 theorem earlyReplace_completes (fs : FS σ) (w : σ) :
     runOps fs (saveEarlyReplace w) = runOps fs (saveNew w) := by
   simp [saveEarlyReplace, saveNew, runOps, applyOp, FS.set, FS.get, move]
+
+/-! ### Exceptions instead of kills; `os.replace` in a `finally:` clause -/
+
+/-- Current code under exception semantics: there is no handler, so the states an exception can leave
+are the kill states: the advertised file holds the previous or the new snapshot. -/
+theorem current_exception_safe (fs : FS σ) (v w : σ) (hb : fs.base = .complete v) :
+    ∀ s ∈ unwindStates fs (saveNew w) [], s.base = .complete v ∨ s.base = .complete w := by
+  intro s hs
+  simp only [unwindStates, runOps, List.map_id'] at hs
+  exact current_crash_safe fs v w hb s hs
+
+/-- Witness: first autosave (snapshot 1) complete; the second `pickle.dump` raises in the middle
+(disk full, MemoryError, KeyboardInterrupt); the `finally:` clause renames the truncated `.new` over the
+last good snapshot. -/
+theorem finallyReplace_counterexample :
+    (⟨.part, .absent, .absent⟩ : FS Nat) ∈
+        unwindStates ⟨.complete 1, .absent, .absent⟩ (finallyBody 2) finallyCleanup ∧
+      load (⟨.part, .absent, .absent⟩ : FS Nat) = none := by
+  decide
+
+/-- Under process-kill semantics (and on every undisturbed path) the variant IS the current code:
+only exception injection in the middle of the write can tell them apart. -/
+theorem finallyReplace_same_ops (w : σ) : finallyBody w ++ finallyCleanup = saveNew w := rfl
+
+/-! ### Resuming from a file called `….new` (names coincide) -/
+
+/-- Found on the unchanged tree: after `MPSBackend.resume("x.new")` every autosave is written in
+place; a crash inside the write leaves the advertised file truncated. -/
+theorem aliased_counterexample :
+    (⟨.part, .absent, .absent⟩ : FS Nat) ∈
+        crashStates ⟨.complete 1, .absent, .absent⟩ (saveAliased 2) ∧
+      ¬ CrashSafe (σ := Nat) (fun _ w => saveAliased w) := by
+  refine ⟨by decide, fun h => ?_⟩
+  have := h ⟨.complete 1, .absent, .absent⟩ 1 2 rfl ⟨.part, .absent, .absent⟩ (by decide)
+  revert this
+  decide
 
 /-! ### The three-step variant (before commit 3262c67) -/
 
